@@ -159,8 +159,22 @@ var layerKinds = []string{"stream", "trace", "connlimit", "ratelimit", "cbreaker
 
 var ipExtractor, _ = utils.NewExtractor("client.ip")
 
-// wrap builds one layer around next. intervene makes this layer the intervening one.
-func wrap(t *rapid.T, kind string, next http.Handler, intervene bool) http.Handler {
+// customErr is a caller-supplied error handler / fallback: when a layer intervenes, its
+// response is the one the client gets.
+var customErr = utils.ErrorHandlerFunc(func(w http.ResponseWriter, _ *http.Request, err error) {
+	w.Header().Set("X-Custom-Intervention", "1")
+	w.WriteHeader(477)
+	_, _ = io.WriteString(w, "custom intervention")
+})
+
+// wrap builds one layer around next. intervene makes this layer the intervening one; custom
+// (with intervene) configures the layer's own way of answering: 1 = a caller-supplied error
+// handler / fallback handler, 2 = the breaker's stock response fallback, 3 = its redirect fallback.
+func wrap(t *rapid.T, kind string, next http.Handler, intervene bool, custom ...int) http.Handler {
+	cust := 0
+	if len(custom) > 0 && intervene {
+		cust = custom[0]
+	}
 	must := func(err error) {
 		if err != nil {
 			t.Fatalf("building layer %s: %v", kind, err)
@@ -184,7 +198,11 @@ func wrap(t *rapid.T, kind string, next http.Handler, intervene bool) http.Handl
 		if intervene {
 			limit = 0
 		}
-		h, err := connlimit.New(next, ipExtractor, limit)
+		var opts []connlimit.Option
+		if cust == 1 {
+			opts = append(opts, connlimit.ErrorHandler(customErr))
+		}
+		h, err := connlimit.New(next, ipExtractor, limit, opts...)
 		must(err)
 		return h
 	case "ratelimit":
@@ -194,7 +212,11 @@ func wrap(t *rapid.T, kind string, next http.Handler, intervene bool) http.Handl
 		} else {
 			must(rs.Add(time.Second, 1000, 1000))
 		}
-		h, err := ratelimit.New(next, ipExtractor, rs)
+		var opts []ratelimit.TokenLimiterOption
+		if cust == 1 {
+			opts = append(opts, ratelimit.ErrorHandler(customErr))
+		}
+		h, err := ratelimit.New(next, ipExtractor, rs, opts...)
 		must(err)
 		return h
 	case "cbreaker":
@@ -202,13 +224,29 @@ func wrap(t *rapid.T, kind string, next http.Handler, intervene bool) http.Handl
 		if intervene {
 			expr = "NetworkErrorRatio() > 0.5"
 		}
-		h, err := cbreaker.New(next, expr)
+		var opts []cbreaker.Option
+		switch cust {
+		case 1:
+			opts = append(opts, cbreaker.Fallback(http.HandlerFunc(func(w http.ResponseWriter, r *http.Request) { customErr(w, r, nil) })))
+		case 2:
+			fb, err := cbreaker.NewResponseFallback(cbreaker.Response{StatusCode: 477, ContentType: "text/x-custom", Body: []byte("custom intervention")})
+			must(err)
+			opts = append(opts, cbreaker.Fallback(fb))
+		case 3:
+			fb, err := cbreaker.NewRedirectFallback(cbreaker.Redirect{URL: "http://sorry.example/down", PreservePath: true})
+			must(err)
+			opts = append(opts, cbreaker.Fallback(fb))
+		}
+		h, err := cbreaker.New(next, expr, opts...)
 		must(err)
 		return h
 	case "roundrobin", "roundrobin+sticky":
 		var opts []roundrobin.LBOption
 		if kind == "roundrobin+sticky" {
 			opts = append(opts, roundrobin.EnableStickySession(roundrobin.NewStickySession("sid")))
+		}
+		if cust == 1 {
+			opts = append(opts, roundrobin.ErrorHandler(customErr))
 		}
 		rr, err := roundrobin.New(next, opts...)
 		must(err)
@@ -222,7 +260,11 @@ func wrap(t *rapid.T, kind string, next http.Handler, intervene bool) http.Handl
 	case "rebalancer":
 		rr, err := roundrobin.New(next)
 		must(err)
-		rb, err := roundrobin.NewRebalancer(rr)
+		var rbOpts []roundrobin.RebalancerOption
+		if cust == 1 {
+			rbOpts = append(rbOpts, roundrobin.RebalancerErrorHandler(customErr))
+		}
+		rb, err := roundrobin.NewRebalancer(rr, rbOpts...)
 		must(err)
 		if !intervene {
 			for i := rapid.IntRange(1, 3).Draw(t, "nservers"); i > 0; i-- {
@@ -235,6 +277,9 @@ func wrap(t *rapid.T, kind string, next http.Handler, intervene bool) http.Handl
 		opts := []buffer.Option{buffer.MemRequestBodyBytes(64), buffer.MemResponseBodyBytes(rapid.SampledFrom([]int64{64, 1 << 20}).Draw(t, "memResp"))}
 		if intervene {
 			opts = append(opts, buffer.MaxRequestBodyBytes(10))
+		}
+		if cust == 1 {
+			opts = append(opts, buffer.ErrorHandler(customErr))
 		}
 		if rapid.IntRange(0, 3).Draw(t, "verboseBuffer") == 0 {
 			opts = append(opts, buffer.Verbose(true), buffer.Logger(formatLogger{}))
@@ -484,10 +529,14 @@ func TestC20_Intervening(t *testing.T) {
 		s.hijack = false
 		var o outcome
 		var h http.Handler = s.handler(&o)
-		for i := len(layers) - 1; i >= 0; i-- {
-			h = wrap(t, layers[i], h, i == pos)
+		custom := rapid.SampledFrom([]int{0, 0, 1, 1, 2, 3}).Draw(t, "customAnswer")
+		if custom >= 2 && layers[pos] != "cbreaker" {
+			custom = 1
 		}
-		desc := fmt.Sprintf("stack (outermost first) %v, layer #%d (%s) intervenes, handler %s", layers, pos, layers[pos], s)
+		for i := len(layers) - 1; i >= 0; i-- {
+			h = wrap(t, layers[i], h, i == pos, custom)
+		}
+		desc := fmt.Sprintf("stack (outermost first) %v, layer #%d (%s) intervenes (own answer: %d), handler %s", layers, pos, layers[pos], custom, s)
 		// warm-up traffic that arms the intervening layer
 		warm := func(status int) {
 			req := newRequest(0)
@@ -515,8 +564,38 @@ func TestC20_Intervening(t *testing.T) {
 			t.Fatalf("layer %s intervened (client status %d) but the handler was still invoked %d times\n%s", layers[pos], rec.Status(), o.invoked, desc)
 		}
 		want := intervening[layers[pos]]
+		wantBody := ""
+		switch custom {
+		case 1, 2:
+			want, wantBody = 477, "custom intervention"
+		case 3:
+			want, wantBody = http.StatusFound, http.StatusText(http.StatusFound)
+		}
 		if rec.Status() != want {
-			t.Fatalf("intervening %s answered %d, documented status is %d\n%s", layers[pos], rec.Status(), want, desc)
+			t.Fatalf("intervening %s answered %d, documented / configured status is %d\n%s", layers[pos], rec.Status(), want, desc)
+		}
+		if wantBody != "" && string(rec.Body()) != wantBody {
+			t.Fatalf("intervening %s answered with body %q, the configured answer is %q\n%s", layers[pos], rec.Body(), wantBody, desc)
+		}
+		switch custom {
+		case 1:
+			if rec.SentHeader().Get("X-Custom-Intervention") != "1" {
+				t.Fatalf("the configured error handler's header did not reach the client\n%s", desc)
+			}
+		case 2:
+			if ct := rec.SentHeader().Get("Content-Type"); ct != "text/x-custom" {
+				t.Fatalf("response fallback: Content-Type %q, configured text/x-custom\n%s", ct, desc)
+			}
+		case 3:
+			wantLoc := "http://sorry.example/down/path"
+			for _, l := range layers[:pos] {
+				if strings.HasPrefix(l, "roundrobin") || l == "rebalancer" {
+					wantLoc = "http://sorry.example/down" // a balancer above has re-targeted the request to a server URL without path
+				}
+			}
+			if loc := rec.SentHeader().Get("Location"); loc != wantLoc {
+				t.Fatalf("redirect fallback with PreservePath: Location %q, want %s\n%s", loc, wantLoc, desc)
+			}
 		}
 		final := 0
 		for _, c := range rec.HeaderCalls {
@@ -533,6 +612,6 @@ func TestC20_Intervening(t *testing.T) {
 		if strings.ContainsAny(string(rec.Body()), "\x00") {
 			t.Fatalf("intervening response body is corrupt\n%s", desc)
 		}
-		vstat.Case(desc, pos > 0, []string{"intervening=" + layers[pos], fmt.Sprintf("position=%d", pos)}, map[string]any{"stack": layers, "intervening_position": pos})
+		vstat.Case(desc, pos > 0, []string{"intervening=" + layers[pos], fmt.Sprintf("position=%d", pos), fmt.Sprintf("own-answer=%d", custom)}, map[string]any{"stack": layers, "intervening_position": pos})
 	})
 }
